@@ -42,25 +42,45 @@ func capsInbound(c *Ctx, seed uint64, cfg bedConfig, variant int) (cases []strin
 		}
 	}
 
-	rounds := 1 + r.Intn(3)
 	refused := 0
-	for round := 0; round < rounds && len(sc.fails) == 0; round++ {
-		// sometimes a few peers are already there, connected one after the other
-		for i := r.Intn(m + 1); i > 0 && len(sc.peers) < m; i-- {
-			sc.connectBatch([][2]int{{1, 100 + sc.next%100}})
-		}
-		k := 2 + r.Intn(6)
+	if variant < 0 {
+		// the minimal witness (corpus / shrunk replay): an empty syncer, MaxInboundPeers+1
+		// connections accepted before any of them has completed its handshake
 		var specs [][2]int
-		for i := 0; i < k; i++ {
-			specs = append(specs, [2]int{1 + r.Intn(3), 100 + (sc.next+i)%100})
+		for i := 0; i <= m; i++ {
+			specs = append(specs, [2]int{1, 100 + i})
 		}
 		adm := sc.connectBatch(specs)
-		refused += k - adm
-		checkCap(fmt.Sprintf("round %d, %d simultaneous connections", round, k))
-		// some peers leave again
-		for _, p := range append([]*rawPeer(nil), sc.peers...) {
-			if r.Intn(3) == 0 {
-				sc.disconnect(p)
+		refused += len(specs) - adm
+		checkCap(fmt.Sprintf("%d simultaneous connections to an empty syncer", len(specs)))
+	} else {
+		rounds := 1 + r.Intn(3)
+		for round := 0; round < rounds && len(sc.fails) == 0; round++ {
+			// sometimes a few peers are already there, connected one after the other
+			for i := r.Intn(m + 1); i > 0 && len(sc.peers) < m; i-- {
+				sc.connectBatch([][2]int{{1, 100 + sc.next%100}})
+			}
+			k := 2 + r.Intn(6)
+			var specs [][2]int
+			for i := 0; i < k; i++ {
+				specs = append(specs, [2]int{1 + r.Intn(3), 100 + (sc.next+i)%100})
+			}
+			adm := sc.connectBatch(specs)
+			refused += k - adm
+			checkCap(fmt.Sprintf("round %d, %d simultaneous connections", round, k))
+			// some peers leave again
+			for _, p := range append([]*rawPeer(nil), sc.peers...) {
+				if r.Intn(3) == 0 {
+					sc.disconnect(p)
+				}
+			}
+		}
+		if len(sc.fails) > 0 && sc.fails[0].kind == "syncer-inbound-cap-exceeded" {
+			// shrink: does the minimal witness fail too?  then report that one
+			before := len(c.Res.Failures)
+			capsInbound(c, seed, cfg, -1)
+			if len(c.Res.Failures) > before || c.Res.Distribution["fail:syncer-inbound-cap-exceeded"] > 0 {
+				sc.fails = nil
 			}
 		}
 	}
